@@ -55,6 +55,16 @@ callback(void * cookie, struct http_response * res)
 	return (rc);
 }
 
+/* NULL: http_request(); otherwise https_request() verifying this host name. */
+static const char * tls_host = NULL;
+
+void
+shim_http_tls(const char * host)
+{
+
+	tls_host = host;
+}
+
 void *
 shim_http_request(void * addrs, const char * method, const char * path, size_t nh,
     const char ** hn, const char ** hv, const uint8_t * body, size_t bodylen, size_t maxrlen,
@@ -102,7 +112,10 @@ shim_http_request(void * addrs, const char * method, const char * path, size_t n
 	R->headers = hdrs;
 	R->bodylen = bodylen;
 	R->body = body;
-	r->h = http_request(addrs, R, maxrlen, callback, r);
+	if (tls_host != NULL)
+		r->h = https_request(addrs, R, maxrlen, callback, r, tls_host);
+	else
+		r->h = http_request(addrs, R, maxrlen, callback, r);
 
 	/* The application re-uses its request object for something else. */
 	memset(m, 'Z', strlen(m));
